@@ -38,4 +38,5 @@ cfg("own_t", inv=LIGHT, FactorNames='= {"m"}', Powers="<- P_one", RegPool="<- Re
 cfg("help_q", inv=LIGHT, FactorNames="<- N_tiny", MaxFactors="= 1", Powers="<- P_pm1", TargetPowers="<- P_pm1", Mags="<- M_pos", HelperNames="<- H_all", Plan="<- Plan_help2")
 cfg("help_t", inv=LIGHT, FactorNames="<- N_q7", TargetNames="<- N_q7", MaxFactors="= 2", MaxTFactors="= 2", Powers="<- P_pm1", TargetPowers="<- P_pm1",
     Mags="<- M_pos", HelperNames="<- H_all", Plan="<- Plan_help3")
+cfg("plain", inv=LIGHT, FactorNames="= {}", MaxFactors="= 0", Mags="<- M_two", ScaleKs="<- K_one", Plan="<- Plan_plain")
 cfg("bexp", inv=LIGHT, FactorNames="<- N_dimless", MaxFactors="= 2", Powers="<- P_pm1", Mags="<- M_exp", Plan="<- Plan_bexp")
